@@ -139,8 +139,7 @@ class ArffDataReader(Filter[Iterable[str], Iterable[Union[Dense,Sparse]]]):
             elif line[-2:] == ",?":
                 missing = True
             else:
-                compact = line.translate(self._trans)
-                missing = compact[:2] == '?,' or ',?,' in compact or compact[-2:] == ',?'
+                missing = any(v.strip() == '?' for v in re.split('[,\t]',line))
 
             yield line,missing
 
@@ -148,7 +147,7 @@ class ArffDataReader(Filter[Iterable[str], Iterable[Union[Dense,Sparse]]]):
 
         for line in lines:
             if line[0] == "%": continue
-            missing = " ?," in line or line[-3:] == " ?}"
+            missing = "?" in line and re.search(r'\s\?\s*[,}]',line) is not None
             yield line,missing
 
 class ArffLineReader(Filter[str, Sequence[str]]):
